@@ -171,6 +171,8 @@ def run(ck):
     from ..rules import loops
     ck.run_rule("G13", "every while loop has a variant (template with side conditions read from the loop)", 15, loops.rule_G13)
     ck.run_rule("G14", "recursion through '.include' is bounded by a depth guard", 1, loops.rule_G14)
+    from . import c07
+    ck.run_rule("C07.R9b", "printing a diagnostic never raises: both handlers on every span position of small files", 1, c07.rule_R9b)
     ck.run_rule("G13n", "no primitive parser matches the empty string (a parser that matched has consumed input)", 40, loops.rule_G13n)
     from ..rules import route
     ck.run_rule("DIR.route", "a statement that is neither an instruction, a directive nor a constant is an error, never dropped silently", 5, route.rule_route, ("fallback",))
